@@ -2,7 +2,7 @@
    Proofs/FastVerilogProofs.v.  Models: Model/FastVerilog.v (fast_sem, full_sem, untie, in_subset). *)
 From Coq Require Import Ascii.
 From stdpp Require Import strings gmap sets.
-From CG Require Import Model.FastVerilog Model.FastVerilogText Proofs.FastVerilogTextProofs Proofs.FastVerilogProofs Proofs.FvA6 Proofs.FvA10 Proofs.FvD6 Proofs.FvD7 Base.Sem Gen.Gen_fastv.
+From CG Require Import Model.FastVerilog Model.FastVerilogText Proofs.FastVerilogTextProofs Proofs.FastVerilogProofs Proofs.FvA6 Proofs.FvA10 Proofs.FvA1 Proofs.FvD6 Proofs.FvD7 Proofs.FvE2 Proofs.FvE3 Base.Sem Gen.Gen_fastv.
 Open Scope string_scope.
 
 (* obligation on the regenerated tables: patterns of the fast reader as captured from a live call (keywords anchored with \b,
@@ -71,6 +71,27 @@ Print Assumptions C14_property_prims_assigns.
 Theorem C14_full_sem_succeeds_prims_assigns_partial : ∀ a bbs, in_subset a bbs = true → no_inst a = true → ∃ C, full_sem a bbs = Ok C.
 Proof. intros a bbs H1 H2. destruct (full_sem_char a bbs H1 H2) as (C1 & g1 & _ & _ & _ & H). eauto. Qed.
 Print Assumptions C14_full_sem_succeeds_prims_assigns_partial.
+
+(* building block of the missing stage (blackbox instances): Circuit.add_blackbox on a fresh instance whose connections are legal
+   succeeds and creates exactly the pins and wires below (mkpins / connection folds of Base/Api.v, fan-out check of the output pins) *)
+Theorem C14_add_blackbox_spec_partial : ∀ C d inst (conns : list (string * string)),
+  inst ∉ dom (c_bbs C) → okname inst → bb_in d ## bb_out d →
+  (∀ p, p ∈ bb_in d ∪ bb_out d → pin inst p ∉ dom (c_g C)) →
+  (∀ m i q, c_g C !! m = Some i → pin inst q ∉ n_fi i) →
+  NoDup (fst <$> conns) →
+  (∀ p n, (p, n) ∈ conns → (p ∈ bb_in d ∨ p ∈ bb_out d) ∧ n ∈ dom (c_g C) ∧ (∀ q, n ≠ pin inst q) ∧
+      (p ∈ bb_in d → ty (c_g C) n ≠ Some BbIn ∧ ty (c_g C) n ≠ Some BbOut) ∧
+      (p ∈ bb_out d → ty (c_g C) n = Some Buf ∧ fanin (c_g C) n = ∅)) →
+  (∀ p n p' n', (p, n) ∈ conns → (p', n') ∈ conns → p ∈ bb_out d → p' ∈ bb_out d → p ≠ p' → n ≠ n') →
+  ∃ g', add_blackbox C d inst (elements (bb_in d)) (elements (bb_out d)) ((λ c : string * string, (c.1, [c.2])) <$> conns) =
+          ({| c_name := c_name C; c_g := g'; c_bbs := <[inst := d]> (c_bbs C) |}, Done) ∧
+    ∀ m, g' !! m =
+      match list_find (λ pt, m = pin inst pt.1) (pin_list d) with
+      | Some (_, pt) => Some (mk_node pt.2 false (conns_add d inst conns m))
+      | None => upd_fi (λ s, s ∪ conns_add d inst conns m) <$> c_g C !! m
+      end.
+Proof. exact add_blackbox_spec. Qed.
+Print Assumptions C14_add_blackbox_spec_partial.
 
 (* one clause of the full statement, proved for ALL ASTs (inside or outside the subset): whenever both readers succeed they
    return the same module name and the same blackbox instances (definitions unambiguous) *)
